@@ -334,6 +334,11 @@ func (p *pluginProvider) LoadSchema(inputs map[string]any, _ map[string][]byte) 
 	}
 	// Tell the server that the client is done
 	if err := transport.Close(); err != nil {
+		// The plugin deployed for the schema probe must not be left behind on this path either.
+		if deployerErr := pluginConnector.Close(); deployerErr != nil {
+			return nil, fmt.Errorf("failed to instruct client to shut down plugin from source '%s' (%w). Deployer close error: (%s)",
+				pluginSource, err, deployerErr.Error())
+		}
 		return nil, fmt.Errorf("failed to instruct client to shut down plugin from source '%s' (%w)", pluginSource, err)
 	}
 	// Shut down the plugin.
